@@ -270,6 +270,16 @@ def _malformed(drv, det, kind, x):
         a = a.reshape(1, -1) if a.ndim <= 1 else a
         df = pd.DataFrame(a, columns=[f"other{j}" for j in range(a.shape[1])])
         return lambda target: target.update(df)
+    if kind in ("permuted-columns", "dropped-column"):
+        # the history used DataFrames with columns c0..ck: same names in another order / one name missing
+        a = np.asarray(x, dtype=object)
+        a = a.reshape(1, -1) if a.ndim <= 1 else a
+        names = [f"c{j}" for j in range(a.shape[1])]
+        if kind == "permuted-columns":
+            df = pd.DataFrame(a[:, ::-1], columns=names[::-1])
+        else:
+            df = pd.DataFrame(a[:, :-1], columns=names[:-1])
+        return lambda target: target.update(df)
     raise AssertionError(kind)
 
 
@@ -425,9 +435,10 @@ def jobs(tier):
                 out.append(Job(f"noharm-{det}-{kind}-k{k}", "checks.c14:body_noharm",
                                {"det": det, "cfg": cfg, "kind": kind, "k": k, "use_df": False}, expect=("compared",)))
     for det, cfg in multi_x:
-        for kind, use_df in (("two-rows", False), ("extra-column", False), ("renamed-columns", True), ("extra-column", True)):
+        for kind, use_df in (("two-rows", False), ("extra-column", False), ("renamed-columns", True), ("extra-column", True),
+                             ("permuted-columns", True), ("dropped-column", True)):
             for k in ks:
-                if k == 0 and kind in ("extra-column", "renamed-columns"):
+                if k == 0 and kind in ("extra-column", "renamed-columns", "permuted-columns", "dropped-column"):
                     continue  # nothing established yet: a different width/name is simply the first input
                 out.append(Job(f"noharm-{det}-{kind}-df{int(use_df)}-k{k}", "checks.c14:body_noharm",
                                {"det": det, "cfg": cfg, "kind": kind, "k": k, "use_df": use_df}, expect=("compared",)))
@@ -438,9 +449,13 @@ def jobs(tier):
     for det, cfg in batch:
         name = cfg.get("cls", det)
         kinds_b = [("one-row-batch", False), ("extra-column", False), ("renamed-columns", True)]
+        if cfg.get("cls") != "CDBD":
+            kinds_b += [("permuted-columns", True), ("dropped-column", True)]
         for kind, use_df in kinds_b:
             for k in ks[:3]:
                 if det == "KdqTreeBatch" and k == 0 and kind != "one-row-batch":
+                    continue
+                if k == 0 and kind in ("permuted-columns", "dropped-column") and det != "HDM" and det != "NNDVI":
                     continue
                 out.append(Job(f"noharm-{name}-{kind}-df{int(use_df)}-k{k}", "checks.c14:body_noharm",
                                {"det": det, "cfg": cfg, "kind": kind, "k": k, "use_df": use_df}, expect=("compared",)))
